@@ -16,6 +16,7 @@ wildcard accept and record the same paths.
 
 from __future__ import annotations
 
+import asyncio
 import copy
 import glob as pyglob
 import fnmatch
@@ -42,12 +43,22 @@ ASSUMPTIONS = [
     "correspondence only",
     "character classes are compared only when their body is made of literal characters and ascending ranges "
     "(no \\ [ ] & ~ |, no leading ^, not empty): Python re and fnmatch read other bodies differently "
-    "(e.g. `[^a]`), see `simplePattern`; such patterns are counted as `unsupported-class` and skipped",
+    "(e.g. `[^a]` negates in re and is a literal ^ for fnmatch), see `simplePattern`; such patterns are counted "
+    "as `unsupported-class` and skipped; a class that contains `/` is split by glob at the separator and tallied "
+    "as `expected-incomplete:class-with-separator`",
     "tree comparisons use relative patterns whose glob form has no empty, `.` or `..` component; trees have no "
-    "symlinks; the model tree lists every ancestor directory (hypothesis `ClosedTree` of the theorems)",
+    "symlinks; the language statements are about trees that list every ancestor directory (`closedTree`)",
     "a directory is recorded only through a pattern that ends in a single-component wildcard, `**` or `/` "
-    "(design of nglob: the match carries a trailing separator); the glob-versus-recorded comparison of the "
-    "oracle is therefore made on non-directory paths",
+    "(design of nglob: the match carries a trailing separator, theorem directory_needs_wildcard_negation); the "
+    "glob-versus-recorded comparison of the oracle is therefore made on non-directory paths",
+    "proved for all inputs: incremental update = rescan, will_change, back-reference equality, recorded = "
+    "globbed and accepted (full since the existence filter of NamedGlob.glob), anonymous = named on token lists for "
+    "non-adjacent wildcards; `glob_complete` and `regex_eq_glob_no_repeats` are stated as Props and refuted by the "
+    "four known over-acceptance classes (and, by design, for directories); no positive part of them is proved: the "
+    "oracle decides them on generated cases only",
+    "whether `.` matches a newline is the regenerated table Generated/NGlob.lean (NGLOB_REGEX_FLAGS & re.DOTALL, "
+    "and every re.compile of an emitted expression passing the flags, by ast); F4 and F10 are fixed in /repo and "
+    "their witnesses are replayed by the oracle on every run",
     "group names are ASCII identifiers; surrogate code points are not generated",
 ]
 
@@ -516,8 +527,8 @@ async def correspond(ctx):
     index2: list[tuple[dict, str, object]] = []
     for (row, scope, job), ans in zip(index, answers):
         c = row["case"]
-        st.count("stream:" + c.stream)
         if scope == "ng":
+            st.count("stream:" + c.stream)
             simple, _, verdict = ans.partition(" ")
             row["simple"] = simple == "1"
             if not row["simple"]:
@@ -623,6 +634,11 @@ SIG_BREFEMPTY = "nglob-backref-empty-component"
 SIG_WILDRUN = "nglob-wildcard-run-empty-component"
 DOCUMENTED = (SIG_NEWLINE, SIG_PHANTOM, SIG_NEGCLASS, SIG_RECBASE, SIG_BREFEMPTY, SIG_WILDRUN)
 
+def _flags() -> int:
+    """The flags the implementation compiles its expressions with (0 before the F4 fix)."""
+    return int(getattr(NG, "NGLOB_REGEX_FLAGS", 0))
+
+
 RECBASE_TAIL = re.compile(r"\(\?:\.\*/\|\)((?:\(\?P<\w+>)?)\[\^/\]\*(\)?)/\?$")
 
 
@@ -631,7 +647,7 @@ def classify_overaccept(ng: NamedGlob, pattern: str, q: str) -> str | None:
     Each documented class is recognised by undoing its cause in the regex and matching again."""
     rx = ng._regex.pattern
     try:
-        if not re.fullmatch(rx.replace("[^", "[^/"), q):
+        if not re.fullmatch(rx.replace("[^", "[^/"), q, _flags()):
             return SIG_NEGCLASS
     except re.error:
         pass
@@ -643,7 +659,7 @@ def classify_overaccept(ng: NamedGlob, pattern: str, q: str) -> str | None:
             return SIG_BREFEMPTY
     if RECBASE_TAIL.search(rx):
         fixed = RECBASE_TAIL.sub(lambda m: "(?:.*/|)" + m.group(1) + "[^/]+" + m.group(2) + "/?", rx)
-        if not re.fullmatch(fixed, q):
+        if not re.fullmatch(fixed, q, _flags()):
             return SIG_RECBASE
     # the last component is a run of two or more single-component wildcards, all matching nothing
     parts = [x for x in NG.RE_ANY_WILD.split(pattern) if x]
@@ -653,7 +669,7 @@ def classify_overaccept(ng: NamedGlob, pattern: str, q: str) -> str | None:
     if run >= 2 and run < len(parts) and parts[-1 - run].endswith("/") and q.endswith("/"):
         prefix = "".join(parts[: len(parts) - run])
         try:
-            if re.fullmatch(convert_nglob_to_regex(prefix, dict(ng.subs)), q):
+            if re.fullmatch(convert_nglob_to_regex(prefix, dict(ng.subs)), q, _flags()):
                 return SIG_WILDRUN
         except (ValueError, re.error):
             pass
@@ -690,38 +706,61 @@ def check_recorded(pattern, subs, existing: set[str], recorded: set[str], accept
         # what the plain recursive glob returns (non-directories) must be recorded
         lost = sorted(p for p in globbed if p in existing and not p.endswith("/") and p not in recorded)
         if lost:
-            sig = SIG_NEWLINE if all("\n" in p for p in lost) else "nglob-globbed-not-recorded"
+            ngx = NamedGlob(pattern, dict(subs))
+            # the newline class: the same expression accepts the path once `.` matches a newline
+            sig = SIG_NEWLINE if all("\n" in p and not ngx._regex.fullmatch(p) and
+                                     re.fullmatch(ngx._regex.pattern, p, re.DOTALL) for p in lost) \
+                else "nglob-globbed-not-recorded"
             yield sig, (f"glob.glob of the plain pattern of {pattern!r} returns {lost!r}, which NamedGlob.glob() "
                         f"does not record" + (" (`.` of `.*` does not match a newline)" if sig == SIG_NEWLINE else "")), \
                 dict(detail, recorded=sorted(recorded), globbed=sorted(globbed))
 
 
 def check_backrefs(ng: NamedGlob, pattern: str, subs: dict, paths) -> tuple | None:
-    """A repeated name binds equal substrings: put the bound text back into every occurrence; the
-    resulting name-free pattern must still match the path (up to the optional trailing separator)."""
+    """A repeated name binds equal substrings: write the bound text literally in place of the
+    group and of every back-reference in the emitted expression; the result (which no longer uses
+    the back-reference feature of `re`) must still match the path, and the bound text must match
+    the sub-pattern of its name."""
+    rx = ng._regex.pattern
+    bodies = {}
+    for n in ng._used_names:
+        try:
+            with warnings.catch_warnings():
+                warnings.simplefilter("ignore")
+                body = convert_nglob_to_regex(subs.get(n, "*"), {}, False)
+        except (ValueError, re.error):
+            return None
+        for cand in (body, "[^/]+"):
+            if f"(?P<{n}>{cand})" in rx:
+                bodies[n] = cand
+                break
+        else:
+            return None
     for p in paths:
         vals = ng._match_values(p)
         if vals is None:
             continue
         binding = dict(zip(ng._used_names, vals))
-        plain = re.sub(r"\$\{\*([a-zA-Z0-9_]+)\}", lambda m: glob_escape_piece(binding[m.group(1)]), pattern)
-        try:
-            with warnings.catch_warnings():
-                warnings.simplefilter("ignore")
-                rx = re.compile(convert_nglob_to_regex(plain, {}, False))
-        except (ValueError, re.error):
-            continue
-        if not (rx.fullmatch(p) or (p.endswith("/") and rx.fullmatch(p[:-1]))):
-            return p, binding, plain
+        plain = rx
         for n, v in binding.items():
-            sub = subs.get(n, "*")
+            lit = "(?:" + re.escape(v) + ")"
+            plain = plain.replace(f"(?P<{n}>{bodies[n]})", lit).replace(f"(?P={n})", lit)
+            if not re.fullmatch(bodies[n], v, _flags()):
+                return p, binding, f"value of {n} does not match its sub-pattern {bodies[n]!r}"
+        if "(?P" in plain or not re.fullmatch(plain, p, _flags()):
+            return p, binding, plain
+        # second form, independent of how the implementation encodes a repeated occurrence: put the bound
+        # text into the *pattern*; skipped when that would change the tokenisation (empty text, separators)
+        if all(v and "/" not in v and "\n" not in v for v in binding.values()):
+            subst = re.sub(r"\$\{\*([a-zA-Z0-9_]+)\}", lambda m: glob_escape_piece(binding[m.group(1)]), pattern)
             try:
                 with warnings.catch_warnings():
                     warnings.simplefilter("ignore")
-                    if not re.fullmatch(convert_nglob_to_regex(sub, {}, False), v):
-                        return p, binding, f"value of {n} does not match its substitution {sub!r}"
+                    rx2 = re.compile(convert_nglob_to_regex(subst, {}, False), _flags())
             except (ValueError, re.error):
-                pass
+                continue
+            if not (rx2.fullmatch(p) or (p.endswith("/") and rx2.fullmatch(p[:-1]))):
+                return p, binding, subst
     return None
 
 
@@ -835,6 +874,18 @@ def witness_overaccept(pattern: str, tree_list: list[str], q: str) -> dict:
         tree.close()
 
 
+async def witness_workflow_newline() -> bool:
+    """The stored regex of a registered pattern, as `Workflow.matches_any_glob` compiles it."""
+    async with implkit.workflow() as wf:
+        async with wf.db:
+            wf.define_step(wf.root, "boot", need=implkit.Need.PLAN)
+            boot = wf.find(implkit.Step, "boot")
+            ng = NamedGlob("d/**")
+            ng.extend(["d/", "d/ok.txt"])
+            wf.register_nglob(boot, ng)
+            return bool(wf.matches_any_glob("d/a\nb")) and bool(wf.matches_any_glob("d/ok.txt"))
+
+
 # deviation classes that the main generator is known to reach and that are *not* new defects:
 # they are consequences of the two documented findings or of documented limits of the model
 def _expected_incomplete(pattern: str, subs: dict, missing) -> str | None:
@@ -871,6 +922,14 @@ async def search(ctx):
             _report(ctx, sig, f"NamedGlob({pattern!r}) on the tree {tree_list!r}: the regex {obs['regex']!r} accepts the "
                     f"existing path {q!r}, glob.glob({obs['glob']!r}) returns {obs['globbed']!r}, so it is not recorded; "
                     + why, {"witness": sig, "pattern": pattern, "subs": {}, "tree": tree_list, "path": q, **obs})
+    try:
+        got = await asyncio.wait_for(witness_workflow_newline(), 30)
+        if not got:
+            _report(ctx, SIG_NEWLINE, "Workflow.matches_any_glob('d/a\\nb') is False although the registered pattern "
+                    "'d/**' globs that path: the stored regex is compiled without DOTALL",
+                    {"witness": "matches_any_glob", "pattern": "d/**", "path": "d/a\nb"})
+    except Exception as exc:  # pragma: no cover
+        ctx.stats.count("oracle:workflow-witness-error:" + type(exc).__name__)
     # 2. generated cases
     jobs = await workload(ctx)
     r = ctx.rng("oracle")
